@@ -290,6 +290,16 @@ for _k in COST:
 STATIC = {}
 
 
+HOLDERS = {}
+
+
+def static_holder(k, tag, opts):
+    if (k, tag) not in HOLDERS:
+        from utype import Schema
+        HOLDERS[(k, tag)] = type('Holder', (Schema,), {'__options__': Options(**opts), '__annotations__': {'x': static_type(k)}})
+    return HOLDERS[(k, tag)]
+
+
 def static_type(k):
     if k not in STATIC:
         from utype import Rule
@@ -302,7 +312,8 @@ def static_type(k):
 
 @ob('cost/static-union', marks=['valid', 'invalid', 'lossy'], budget=(60, 200),
     bounds='T(k+1) = List[Union[Leaf, T(k)]] nested k times, k in 1..10 solver integer; input = k nested one-element lists '
-           'around a valid leaf, an invalid leaf, or a leaf that converts only in the lossy (last) union stage; leaf conversions '
+           'around a valid leaf, an invalid leaf, or a leaf that converts only in the lossy (last) union stage; converted by type_transform or as a Schema field, '
+           'declared options none or the defaults spelled out (no_explicit_cast=False / no_data_loss=False); leaf conversions '
            '<= (k+1)^3 (the staged retries give a cubic count on the pinned tree: 441 at k=12)',
     out='k > 10: growth is extrapolated, not proved')
 def cost_static(V):
@@ -313,15 +324,24 @@ def cost_static(V):
     while depth < K and not (k == depth):
         depth += 1
     leaf = V.pick('leaf', [1, 'bad', 1.5])
+    # the declared options may spell out defaults explicitly (no_explicit_cast=False): same work as leaving them out
+    declared = V.pick('declared', ['none', 'no_explicit_cast=False', 'no_data_loss=False', 'both=False'])
+    opts = {'none': {}, 'no_explicit_cast=False': {'no_explicit_cast': False}, 'no_data_loss=False': {'no_data_loss': False},
+            'both=False': {'no_explicit_cast': False, 'no_data_loss': False}}[declared]
+    route = V.pick('route', ['type_transform', 'schema-field'])
     with V.notrace():
         T = static_type(depth)
+        holder = static_holder(depth, declared, opts)
     x = leaf
     for _ in range(depth):
         x = [x]
     COUNT[0] = 0
-    r = attempt(type_transform, x, T)
+    if route == 'type_transform':
+        r = attempt(type_transform, x, T, Options(**opts))
+    else:
+        r = attempt(holder, x=x)
     n = COUNT[0]
     limit = (depth + 1) ** 3
     V.check(n <= limit, 'cost:superpolynomial:static-union',
-            lambda: 'static union nesting k=%d leaf=%r: %d leaf conversions > (k+1)^3 = %d' % (depth, leaf, n, limit))
+            lambda: 'static union nesting k=%d leaf=%r declared options %s via %s: %d leaf conversions > (k+1)^3 = %d' % (depth, leaf, declared, route, n, limit))
     V.cover('valid' if leaf == 1 else 'invalid' if leaf == 'bad' else 'lossy')
